@@ -102,6 +102,12 @@ func (f *mserve) Exec(r *hx.Run, op []string) string {
 		}
 		root := merkle.TreeHasher{}.HashFullTreeWithLeafHash(hs)
 		v, e := merkle.MerkleProve(path, root[:])
+		for _, o := range otherRoots(root[:], refMTH(append([]common.Uint256{refLeaf([]byte("other"))}, hs...))) {
+			if _, e2 := merkle.MerkleProve(path, o); e2 == nil {
+				r.Viol(fmt.Sprintf("C08:served-path-verifies-against-another-root:n=%d", len(hs)),
+					fmt.Sprintf("the path served for record %x of a %d-record block, accepted for the committed root %x, is also accepted for root %x", d, len(hs), root[:], o))
+			}
+		}
 		if e != nil || !bytes.Equal(v, d) {
 			idx := -1
 			for i, h := range hs {
